@@ -77,6 +77,9 @@ func (m *Module) ifaceDecl(p *Pkg, it *Iface, q func(string) string) string {
 		sb.WriteString("[" + strings.Join(parts, ", ") + "]")
 	}
 	if it.InstOf != nil {
+		if it.Alias {
+			sb.WriteString(" =")
+		}
 		sb.WriteString(" " + Render(*it.InstOf, q) + "\n")
 		return sb.String()
 	}
@@ -258,6 +261,9 @@ func (m *Module) Features() []string {
 			}
 			if it.InstOf != nil {
 				set["named-instantiation"] = true
+			}
+			if it.Alias {
+				set["alias-of-instantiation"] = true
 			}
 			if len(it.Embeds) > 0 {
 				set["embedding"] = true
